@@ -22,7 +22,11 @@ def collect_inputs(trace):
         try:
             num = int(re.sub(r'[uUlL]+$', '', str(d)), 0)
         except ValueError:
-            continue
+            # char-typed cells are printed as character literals; the bit pattern is always there
+            b = v.get('binary')
+            if not b or not re.match(r'^[01]{1,64}$', b):
+                continue
+            num = int(b, 2)
         if m:
             vals.setdefault(m.group(1), {})[int(m.group(2))] = num
         elif re.match(r'^\w+$', lhs):
